@@ -200,16 +200,66 @@ def res_is_err_variant(ex, res, variant, payload=None):
     return z3.BoolVal(False)
 
 
+def term_eq(a, b):
+    """Equality of two log items as a z3 Bool (terms), or a Python bool (everything else)."""
+    if isinstance(a, z3.ExprRef) and isinstance(b, z3.ExprRef):
+        if a.sort() != b.sort():
+            return False
+        return True if a.eq(b) else a == b
+    if isinstance(a, (list, tuple)) and isinstance(b, (list, tuple)):
+        if len(a) != len(b):
+            return False
+        out = []
+        for x, y in zip(a, b):
+            r = term_eq(x, y)
+            if r is False:
+                return False
+            if r is not True:
+                out.append(r)
+        return z3.And(out) if out else True
+    if isinstance(a, z3.ExprRef) or isinstance(b, z3.ExprRef):
+        try:
+            return a == b
+        except Exception:
+            return False
+    return a == b
+
+
 class Case:
-    """One row of a specification: under `guard`, the (schedule-free) log must be `log` and the result must satisfy `result(ex, res)`."""
+    """One row of a specification: under `guard`, the (schedule-free) log must equal `log` (items may contain z3 terms) and
+    `result(ex, res)` (a z3 Bool) must hold; `post(ex)` optionally constrains the final state."""
 
-    def __init__(self, name, guard, log, result):
-        self.name, self.guard, self.log, self.result = name, guard, log, result
+    def __init__(self, name, guard, log, result, post=None):
+        self.name, self.guard, self.log, self.result, self.post = name, guard, log, result, post
+
+    def good(self, ex, status, res, plog):
+        if status == "panic":
+            return False, f"panic: {res}"
+        conds = []
+        if self.log is not None:
+            r = term_eq(plog, self.log)
+            if r is False:
+                return False, f"evaluation log {show_log(plog)} != expected {show_log(self.log)}"
+            if r is not True:
+                conds.append(r)
+        if self.result is not None:
+            conds.append(self.result(ex, res))
+        if self.post is not None:
+            conds.append(self.post(ex))
+        conds = [c for c in conds if c is not True]
+        if any(c is False for c in conds):
+            return False, f"result {short(res)} is not the expected one"
+        return (z3.And(conds) if conds else True), f"result {short(res)} / log {show_log(plog)} violates the specification"
 
 
-def check_paths(run, prog, env, oid, body, cases, kind, meta=None, max_paths=3000, log_filter=strip_schedule, solver_timeout_ms=30000):
+def show_log(l):
+    return "[" + ", ".join("(" + " ".join(str(x) for x in e) + ")" for e in l) + "]"
+
+
+def check_paths(run, prog, env, oid, body, cases, kind, meta=None, max_paths=3000, log_filter=strip_schedule, solver_timeout_ms=30000,
+                mandatory_cases=None):
     """Explore every path of body(ex) -> result; on each path every spec case whose guard is consistent with the path condition must
-    hold. Returns the obligation dict; counterexamples are returned in d['cex'] (decision made by the caller after native replay)."""
+    hold. Returns the obligation dict; counterexamples are in d['cex'] (the caller replays them natively before reporting)."""
     t0 = time.time()
     q0 = prog.stats["queries"]
     n_paths = 0
@@ -223,7 +273,7 @@ def check_paths(run, prog, env, oid, body, cases, kind, meta=None, max_paths=300
             s.set("timeout", solver_timeout_ms)
             s.add(*ex.pc)
             plog = log_filter(ex.log)
-            schedules.add(tuple(e for e in ex.log if e[0] in ("pending",)))
+            schedules.add(tuple(str(e) for e in ex.log if e[0] in ("pending",)))
             matched = False
             for case in cases:
                 prog.stats["queries"] += 1
@@ -234,29 +284,30 @@ def check_paths(run, prog, env, oid, body, cases, kind, meta=None, max_paths=300
                     continue
                 matched = True
                 covered.add(case.name)
-                if status == "panic":
-                    cex.append({"case": case.name, "why": f"panic: {res}", "model": model_dict(s.model()), "log": plog})
+                gm = s.model()
+                good, why = case.good(ex, status, res, plog)
+                if good is True:
                     continue
-                if case.log is not None and plog != case.log:
-                    cex.append({"case": case.name, "why": f"evaluation log {plog} != expected {case.log}", "model": model_dict(s.model()), "log": plog})
+                if good is False:
+                    cex.append({"case": case.name, "why": why, "model": model_dict(gm), "log": show_log(plog), "result": short(res, 400),
+                                "_model": gm, "_case": case})
                     continue
-                if case.result is not None:
-                    good = case.result(ex, res)
-                    prog.stats["queries"] += 1
-                    r2 = s.check(case.guard, z3.Not(good))
-                    if r2 == z3.unknown:
-                        raise Unsupported(f"solver unknown on result of case {case.name}")
-                    if r2 == z3.sat:
-                        cex.append({"case": case.name, "why": f"result {short(res)} violates the expected result", "model": model_dict(s.model()),
-                                    "log": plog})
+                prog.stats["queries"] += 1
+                r2 = s.check(case.guard, z3.Not(good))
+                if r2 == z3.unknown:
+                    raise Unsupported(f"solver unknown on the assertion of case {case.name}")
+                if r2 == z3.sat:
+                    mm = s.model()
+                    cex.append({"case": case.name, "why": why, "model": model_dict(mm), "log": show_log(plog), "result": short(res, 400),
+                                "_model": mm, "_case": case})
             if not matched:
-                raise Unsupported(f"path with log {plog} matches no specification case (specification not exhaustive)")
+                raise Unsupported(f"path with log {show_log(plog)} matches no specification case (specification not exhaustive)")
     except (Unsupported, PathLimit) as e:
         d = run.obligation(oid, kind, "inconclusive", time.time() - t0, reason=str(e)[:400], paths=n_paths, **(meta or {}))
         return d
     dt = time.time() - t0
     run.solver_time_s += dt
-    missing = [c.name for c in cases if c.name not in covered]
+    missing = [c.name for c in cases if c.name not in covered and (mandatory_cases is None or c.name in mandatory_cases)]
     d = run.obligation(oid, kind, "fail" if cex else "pass", dt, paths=n_paths, queries=prog.stats["queries"] - q0,
                        cases_covered=sorted(covered), schedules=len(schedules), nontrivial=not missing, **(meta or {}))
     if missing and not cex:
